@@ -140,6 +140,7 @@ type ctxScenario struct {
 	Ops      int    `json:"ops"`      // operations by the client: first under c1, the rest under live contexts
 	Feeds    int    `json:"feeds"`    // how many units the environment may feed
 	Deadline bool   `json:"deadline"` // the first context also has a far deadline
+	Par      bool   `json:"par"`      // the operations are issued by different goroutines at the same time
 }
 
 func errClass(err error) string {
@@ -209,38 +210,55 @@ func execCtx(t *testing.T, tr *vrt.Tracer, sc ctxScenario, ex *vrt.Explorer) {
 			c1, cf = context.WithTimeout(c1, time.Hour)
 			defer cf()
 		}
-		inflight := -1
+		inflight := map[int]bool{}
 		var wg sync.WaitGroup
-		wg.Add(1)
-		go func() {
-			defer wg.Done()
-			for p := 0; p < sc.Ops; p++ {
-				vrt.Yield("client")
-				ctx, name := context.Background(), "live"
-				if p == 0 {
-					ctx, name = c1, "c1"
-				}
-				mu.Lock()
-				stop := over
-				inflight = p
-				mu.Unlock()
-				if stop {
-					return
-				}
-				emit(vrt.M{"ev": "call", "p": p, "ctx": name})
-				var n int
-				var err error
-				if sc.Dir == "r" {
-					n, err = rd(ctx, make([]byte, 32))
-				} else {
-					n, err = wr(ctx, []byte("0123456789"))
-				}
-				mu.Lock()
-				inflight = -1
-				mu.Unlock()
-				emit(vrt.M{"ev": "ret", "p": p, "n": n, "err": errClass(err), "reg": f.reg(sc.Dir)})
+		one := func(p int) bool {
+			vrt.Yield("client")
+			ctx, name := context.Background(), "live"
+			if p == 0 {
+				ctx, name = c1, "c1"
 			}
-		}()
+			mu.Lock()
+			stop := over
+			inflight[p] = true
+			mu.Unlock()
+			if stop {
+				return false
+			}
+			emit(vrt.M{"ev": "call", "p": p, "ctx": name})
+			var n int
+			var err error
+			if sc.Dir == "r" {
+				n, err = rd(ctx, make([]byte, 32))
+			} else {
+				n, err = wr(ctx, []byte("0123456789"))
+			}
+			mu.Lock()
+			delete(inflight, p)
+			mu.Unlock()
+			emit(vrt.M{"ev": "ret", "p": p, "n": n, "err": errClass(err), "reg": f.reg(sc.Dir)})
+
+			return true
+		}
+		if sc.Par { // every operation from its own goroutine: callers sharing one wrapper
+			for p := 0; p < sc.Ops; p++ {
+				wg.Add(1)
+				go func(p int) {
+					defer wg.Done()
+					one(p)
+				}(p)
+			}
+		} else {
+			wg.Add(1)
+			go func() {
+				defer wg.Done()
+				for p := 0; p < sc.Ops; p++ {
+					if !one(p) {
+						return
+					}
+				}
+			}()
+		}
 		cancelLeft, feeds := true, sc.Feeds
 		for steps := 0; steps < 5000; steps++ {
 			parked := s.Parked()
@@ -276,8 +294,8 @@ func execCtx(t *testing.T, tr *vrt.Tracer, sc ctxScenario, ex *vrt.Explorer) {
 		synctest.Wait()
 		mu.Lock()
 		pending := []int{}
-		if inflight >= 0 {
-			pending = append(pending, inflight)
+		for p := range inflight {
+			pending = append(pending, p)
 		}
 		tr.Emit(vrt.M{"ev": "quiesce", "pending": pending, "reg": f.reg(sc.Dir), "leaked": watcherGoroutines() - len(pending), "sched": ex.Trail(), "fine": vrt.IsFine()})
 		over = true
